@@ -35,10 +35,10 @@ func universe() []reporter.Report {
 	return []reporter.Report{
 		mk(a, "promql/series", "metric missing", "details one", checks.Bug, 5, 5, true),
 		mk(a, "promql/series", "other metric missing", "details two", checks.Bug, 5, 5, true), // same check, same lines: shares a comment
-		mk(a, "alerts/for", "for too short", "", checks.Warning, 5, 5, false),                  // other check on those lines
-		mk(c, "promql/aggregate", "label removed", "", checks.Warning, 5, 5, true),             // second file
-		mk(b, "promql/series", "metric missing", "details one", checks.Bug, 8, 8, true),        // the same problem on another rule ("moved" / duplicate)
-		mk(a, "promql/series", "metric missing", "details three", checks.Bug, 5, 5, true),      // same summary as the first, different details
+		mk(a, "alerts/for", "for too short", "", checks.Warning, 5, 5, false),                 // other check on those lines
+		mk(c, "promql/aggregate", "label removed", "", checks.Warning, 5, 5, true),            // second file
+		mk(b, "promql/series", "metric missing", "details one", checks.Bug, 8, 8, true),       // the same problem on another rule ("moved" / duplicate)
+		mk(a, "promql/series", "metric missing", "details three", checks.Bug, 5, 5, true),     // same summary as the first, different details
 	}
 }
 
@@ -75,15 +75,52 @@ func body(c *explore.Chooser) *explore.Case {
 	return cs
 }
 
+// gitlabBody: the platform layer. The real GitLabReporter talks HTTP to a stateful fake of the discussions API;
+// threads gain replies by other users and system notes between runs.
+func gitlabBody(c *explore.Chooser) *explore.Case {
+	maxComments := []int{1, 50}[c.Free(2, "maxComments")]
+	showDups := c.Free(2, "showDuplicates") == 1
+	all := universe()
+	u := []reporter.Report{all[0], all[1], all[3]} // two problems sharing a comment, one in a second file
+	stale := reporter.VerifGLDisc{Notes: []reporter.VerifGLNote{{Author: "pint", Body: "stale comment left by an earlier pint run\n", Path: u[0].Path.SymlinkTarget, Line: 6}}}
+	staleReplied := reporter.VerifGLDisc{Notes: append(append([]reporter.VerifGLNote{}, stale.Notes...), reporter.VerifGLNote{Author: "other", Body: "why?", Path: u[0].Path.SymlinkTarget, Line: 6})}
+	eq := reporter.VerifGLPendingFor(u[:1], showDups, "pint")
+	foreignEq := reporter.VerifGLPendingFor(u[:1], showDups, "other") // somebody else's comment with the very same text
+	general := reporter.VerifGLDisc{Notes: []reporter.VerifGLNote{{Author: "pint", Body: "general comment without position"}}}
+	initial := [][]reporter.VerifGLDisc{{}, {stale}, eq, foreignEq, {staleReplied, general}}
+	res := reporter.VerifC17GitLabBFS(u, initial, maxComments, showDups)
+	cs := &explore.Case{Input: map[string]any{"platform": "gitlab", "maxComments": maxComments, "showDuplicates": showDups, "problem_universe": len(u), "initial_stores": len(initial), "sample_state": res.SampleState},
+		Outcome: fmt.Sprintf("gitlab states=%d", res.States)}
+	cs.Count("states", int64(res.States))
+	cs.Count("transitions", int64(res.Transitions))
+	cs.Count("traces_validated_against_impl", int64(res.Transitions))
+	cs.Count("gitlab_states", int64(res.States))
+	cs.Count("gitlab_transitions", int64(res.Transitions))
+	cs.Count("max_depth", int64(res.MaxDepth))
+	seen := map[string]bool{}
+	for _, v := range res.Violations {
+		if seen[v.Sig] {
+			continue
+		}
+		seen[v.Sig] = true
+		cs.Violate(fmt.Sprintf("gitlab: %s", v.Sig), v.What, map[string]any{"event_path": v.Path, "maxComments": maxComments, "showDuplicates": showDups})
+	}
+	return cs
+}
+
 func main() {
 	explore.Main(&explore.Config{
 		Property: "C17", Level: "model_checking",
-		Rule: "for each parameter cell (maxComments in {1,2,50} x reporter can/cannot delete x showDuplicates) a breadth-first search to closure over comment-store states: events run(R) for all 32 subsets R of each of two 5-problem universes drawn from (two problems of one check on the same lines, a third with the same summary but other details, another check on those lines, a second file, the same problem on another rule), initial stores {empty, stale pint comment, comment already equal to a pending one, both}; every transition calls the real reporter.Submit on a store whose equality / budget / deletion rules are the real GitLab and GitHub methods; budget, no-duplicate, coverage, stale-removal, idempotence and convergence invariants on every transition",
+		Rule: "for each parameter cell (maxComments in {1,2,50} x reporter can/cannot delete x showDuplicates) a breadth-first search to closure over comment-store states: events run(R) for all 32 subsets R of each of two 5-problem universes drawn from (two problems of one check on the same lines, a third with the same summary but other details, another check on those lines, a second file, the same problem on another rule), initial stores {empty, stale pint comment, comment already equal to a pending one, both}; every transition calls the real reporter.Submit on a store whose equality / budget / deletion rules are the real GitLab and GitHub methods; budget, no-duplicate, coverage, stale-removal, idempotence and convergence invariants on every transition; platform layer: the same search through the real GitLabReporter (List/Create/Delete/Summary over HTTP) against a stateful fake of the merge-request discussions API, 3-problem universe, maxComments in {1,50} x showDuplicates, initial stores {empty, stale pint thread, thread equal to a pending comment, another user's comment with the same text, stale thread with a reply + a general comment}, environment events reply(thread) and system-note(thread) on pint's threads, plus foreign-discussion-untouched and API-use invariants",
 		Assumptions: []string{
-			"the store is an in-memory Commenter; List only returns pint's own comments (as the GitLab/GitHub reporters do), so foreign comments are invisible to Submit by construction",
+			"cells space: the store is an in-memory Commenter whose List only returns pint's own comments; which comments are pint's own is decided by the platform code, covered by the gitlab space (GitHub's List does not filter by author and cannot delete, so it has no such decision)",
+			"gitlab space: discussions that are not pint's are kept as a set (List skips them, so their multiplicity cannot influence a run); at most one reply and one system note per thread",
 			"every transition is executed by the implementation itself (no separate model), hence traces_validated_against_impl = transitions",
 		},
-		Spaces:  []*explore.Space{{Name: "cells", Body: body, Bound: func(string) int { return -1 }}},
+		Spaces: []*explore.Space{
+			{Name: "cells", Body: body, Bound: func(string) int { return -1 }},
+			{Name: "gitlab", Body: gitlabBody, Bound: func(string) int { return -1 }},
+		},
 		BudgetS: func(string) int { return 600 },
 	})
 }
